@@ -70,8 +70,9 @@ type upstream struct {
 	slotsRefTriggerHook func() // only used to testing
 	slotsLastUpdateTime time.Time
 
-	quit chan struct{}
-	done chan struct{}
+	started int32 // set by Serve, tells Stop whether there is anything to wait for
+	quit    chan struct{}
+	done    chan struct{}
 }
 
 func newUpstream(cfg *config, hosts []*host.Host, logger log.Logger, stats *proc.UpstreamStats) *upstream {
@@ -90,6 +91,7 @@ func newUpstream(cfg *config, hosts []*host.Host, logger log.Logger, stats *proc
 }
 
 func (u *upstream) Serve() {
+	atomic.StoreInt32(&u.started, 1)
 	var wg sync.WaitGroup
 	wg.Add(2)
 	go func() {
@@ -114,7 +116,10 @@ func (u *upstream) Serve() {
 
 func (u *upstream) Stop() {
 	close(u.quit)
-	<-u.done
+	// a Serve that starts later sees quit and leaves at once.
+	if atomic.LoadInt32(&u.started) == 1 {
+		<-u.done
+	}
 }
 
 func (u *upstream) Hosts() []*host.Host {
